@@ -639,7 +639,9 @@ Definition verify_dnssec (E : env) (signer : name) (resp : msg) (parentDS : list
                   | (_, Some e) => (false, Some e)
                   | (false, None) => (false, None)
                   | (true, None) =>
-                      if m_qtype resp =? T_RRSIG then (false, None) else
+                      (* the answer to an RRSIG question is not verifiable; a referral or a denial met while resolving one
+                         (empty answer section) is verified like any other (since the rrsig-question repair) *)
+                      if (m_qtype resp =? T_RRSIG) && match m_ans resp with [] => false | _ => true end then (false, None) else
                       match verify_rrsig (e_nrank E) (e_now E) signer keys (m_ans resp) (m_ns resp) with
                       | (_, Some e) => (false, Some e)
                       | (false, None) => (false, None)
